@@ -239,7 +239,9 @@ def run(ctx):
     # and every item is buffered (how exactly the cut is made is C06's business)
     _RR2.bounded_selection(_Only(ctx, ("ctor-roles", "every-item-buffered", "anchor")), "R06.a")
     _RR2.limit_provenance(ctx, "R06.a")
-    return info("R06.a: the bounded selection keeps `limit` items at full width (a store no larger than the limit loses no hit to the cut). R13.j: the word-to-word alternative of text_match calls word_match on every path (no pre-test in front of the gates). R13.i: add_record really adds the record to the addressed store on every call (the registry API is not exercised by the repository's tests). Necessary structure only (which record word a query word is assigned to is a runtime matter and is not decided): "
+    from . import r_word as _RW2
+    _RW2.no_shadowed_defaults(ctx, "R13.k")
+    return info("R13.k: no impl overrides a provided method of the crate's traits (Word::len / dist / is_function, LimitSort). R06.a: the bounded selection keeps `limit` items at full width (a store no larger than the limit loses no hit to the cut). R13.j: the word-to-word alternative of text_match calls word_match on every path (no pre-test in front of the gates). R13.i: add_record really adds the record to the addressed store on every call (the registry API is not exercised by the repository's tests). Necessary structure only (which record word a query word is assigned to is a runtime matter and is not decided): "
                 "R13.a the scan over record words restarts at the first word and covers all words for every query word; R13.b words are "
                 "passed over only when matched already; R13.c only a non-function match stops the scan; R13.d equal words pass the "
                 "length, Jaccard and DL gates; R13.e two matched words pass the filter (abstract run); R13.f gram generator, "
